@@ -17,7 +17,9 @@ TRUSTED = [
 
 
 def run(ctx):
-    ctx.rule = ("messages = shipped-scenario seeds of all 30 types and structural/content mutants of them that still parse "
+    ctx.rule = ("rule-violating bodies of all 30 types from the C04 enumeration (JSON level: presence toggles per sequence, codes, currencies, sums, "
+                "repetition counts; many violate several rules at once), validated as values and again as MT text through SwiftMessage::validate, "
+                "the auto-detected wrapper and the plugin; plus messages = shipped-scenario seeds of all 30 types and structural/content mutants of them that still parse "
                 "(delete/duplicate/swap fields, duplicate sequence occurrences, change currencies, codes, amounts); "
                 "non-trivial = at least one rule error reported; distinct = distinct (type, full code list, stop code list)")
     standard_front(ctx, __import__("c13"))
@@ -107,6 +109,55 @@ def run(ctx):
             viol("auto-detected wrapper validate() disagrees with typed validate(): %s" % str(a)[:160], mi, "auto")
         if not (pv.get("ok") and pv.get("valid") == (full == []) and len(pv.get("errors") or []) == len(full)):
             viol("plugin verdict %s / %d errors disagrees with the full list %s" % (pv.get("valid"), len(pv.get("errors") or []), codes), mi, "pvalidate")
+    # ---- rule-violating bodies built by the C04 enumeration (JSON level), then the same bodies as MT text through every adapter
+    import c04
+    jcases, jmeta = c04.gen_cases(ctx, rng, ctx.tier == "thorough", scale=0.5)
+    jres = run_lib(ctx, jcases, "c13j")
+    tcases, tmeta = [], []
+    jmulti = 0
+    pt = {}
+    for (c, label), r, case in zip(jmeta, jres, jcases):
+        ctx.evaluations += 1
+        if "panic" in r or "crash" in r:
+            continue      # C04 / C07 matter
+        if not r.get("ok"):
+            continue
+        full, stop, again = r["rules_json"], r["rules_stop_json"], r["rules_json_again"]
+        codes = c04.errs(full)
+        if codes:
+            ctx.distinct.add((c, tuple(codes), tuple(c04.errs(stop))))
+            dist[",".join(x.split(":")[0] for x in codes)] = dist.get(",".join(x.split(":")[0] for x in codes), 0) + 1
+        if len(codes) > 1:
+            jmulti += 1
+        if not is_prefix(stop, full):
+            ctx.violations.append(("MT%s (%s): stop-on-first-error list %s is not a prefix of the full list %s" % (c, label, c04.errs(stop), codes), case))
+        if (stop == []) != (full == []):
+            ctx.violations.append(("MT%s (%s): stop list empty=%s but full list empty=%s" % (c, label, stop == [], full == []), case))
+        if again != full:
+            ctx.violations.append(("MT%s (%s): validating the same value again gives %s, first %s" % (c, label, c04.errs(again), codes), case))
+        pt[c] = pt.get(c, 0) + (1 if codes and r.get("mt") else 0)
+        if codes and r.get("mt") and pt[c] <= (600 if ctx.tier == "thorough" else 120):
+            text = "{1:F01BANKDEFFAXXX0000000000}{2:I%sBANKUS33XXXXN}{4:\n%s\n-}" % (c, r["mt"].replace("\r\n", "\n").strip("\n"))
+            hx = hexs(text)
+            tcases += ["typed\tMT%s\t%s" % (c, hx), "auto\t%s" % hx, "pvalidate\t%s" % hx]; tmeta.append((c, label, codes))
+    tres = run_lib(ctx, tcases, "c13t")
+    reparsed = 0
+    for i, (c, label, codes) in enumerate(tmeta):
+        t, a, pv = tres[3 * i], tres[3 * i + 1], tres[3 * i + 2]
+        case = tcases[3 * i]
+        if not t.get("ok"):
+            continue
+        reparsed += 1
+        full = t["rules_json"]
+        if not is_prefix(t["rules_stop_json"], full) or (t["rules_stop_json"] == []) != (full == []):
+            ctx.violations.append(("MT%s (%s): stop list %s vs full list %s" % (c, label, t["rules_stop"], t["rules"]), case))
+        if t["is_valid"] != (full == []) or t["validate_rule_names"] != t["rules"]:
+            ctx.violations.append(("MT%s (%s): SwiftMessage::validate (%s, %s) disagrees with the full list %s" % (c, label, t["is_valid"], t["validate_rule_names"], t["rules"]), case))
+        if not a.get("ok") or a.get("is_valid") != t["is_valid"] or a.get("validate_rule_names") != t["validate_rule_names"]:
+            ctx.violations.append(("MT%s (%s): auto-detected wrapper validate() disagrees with typed validate(): %s" % (c, label, str(a)[:120]), tcases[3 * i + 1]))
+        if not (pv.get("ok") and pv.get("valid") == (full == []) and len(pv.get("errors") or []) == len(full)):
+            ctx.violations.append(("MT%s (%s): plugin verdict %s / %d errors disagrees with the full list %s" % (c, label, pv.get("valid"), len(pv.get("errors") or []), t["rules"]), tcases[3 * i + 2]))
+    ctx.stats.update({"json_bodies": len(jcases), "json_bodies_with_2plus_errors": jmulti, "rule_violating_texts_through_adapters": reparsed})
     ctx.stats.update({"messages": len(msgs), "parsed": parsed, "with_2plus_errors": multi,
                       "error_code_sets": dict(sorted(dist.items(), key=lambda kv: -kv[1])[:40])})
     if not ctx.samples:
